@@ -111,8 +111,39 @@ pub enum Api {
     WriteAll,
     WriteFmt,
     WriteVectored,
+    /// `write!(stream, "<literal>")` (`Arguments::as_str()` is `Some`): the chunk must be one of LITERALS, otherwise WriteFmt
+    WriteFmtLiteral,
+    /// one `write!` with a short fragment, a large one and the rest
+    WriteFmtBig,
 }
 pub const APIS: [Api; 4] = [Api::Write, Api::WriteAll, Api::WriteFmt, Api::WriteVectored];
+pub const ALL_APIS: [Api; 6] = [Api::Write, Api::WriteAll, Api::WriteFmt, Api::WriteVectored, Api::WriteFmtLiteral, Api::WriteFmtBig];
+
+pub const LITERALS: [&str; 5] = [
+    "status: \x1b[32mall good\x1b[0m (42 items)\n",
+    "plain literal text",
+    "\x1b[1;31merror\x1b[0m: \u{e9}\u{6f22}\u{1f600} \x1b[4munderlined",
+    "x",
+    "\x1b[38;5;208morange\x1b[m \x1b]0;title\x07done\r\n",
+];
+
+fn write_literal(w: &mut dyn Write, idx: usize) -> io::Result<()> {
+    match idx {
+        0 => write!(w, "status: \x1b[32mall good\x1b[0m (42 items)\n"),
+        1 => write!(w, "plain literal text"),
+        2 => write!(w, "\x1b[1;31merror\x1b[0m: \u{e9}\u{6f22}\u{1f600} \x1b[4munderlined"),
+        3 => write!(w, "x"),
+        _ => write!(w, "\x1b[38;5;208morange\x1b[m \x1b]0;title\x07done\r\n"),
+    }
+}
+
+fn floor_boundary(s: &str, mut i: usize) -> usize {
+    i = i.min(s.len());
+    while !s.is_char_boundary(i) {
+        i -= 1;
+    }
+    i
+}
 
 pub struct Run<'a> {
     pub input: &'a [u8],
@@ -182,7 +213,17 @@ pub fn run_history(run: &Run<'_>, st: Option<&mut Stats>) -> Result<(), (String,
                 stream.write_vectored(&bufs)
             }
             Api::WriteAll => stream.write_all(chunk).map(|_| chunk.len()),
-            Api::WriteFmt => match std::str::from_utf8(chunk) {
+            Api::WriteFmtLiteral if LITERALS.iter().any(|l| l.as_bytes() == chunk) => {
+                let k = LITERALS.iter().position(|l| l.as_bytes() == chunk).unwrap();
+                write_literal(&mut stream, k).map(|_| chunk.len())
+            }
+            Api::WriteFmtBig if std::str::from_utf8(chunk).is_ok() => {
+                let s = std::str::from_utf8(chunk).unwrap();
+                let a = floor_boundary(s, (s.len() / 16).min(5));
+                let b = floor_boundary(s, s.len() - (s.len() / 16).min(7));
+                write!(stream, "{}{}{}", &s[..a], &s[a..b], &s[b..]).map(|_| chunk.len())
+            }
+            Api::WriteFmt | Api::WriteFmtLiteral | Api::WriteFmtBig => match std::str::from_utf8(chunk) {
                 Ok(s) => {
                     let mut mid = s.len() / 2;
                     while !s.is_char_boundary(mid) {
@@ -206,7 +247,7 @@ pub fn run_history(run: &Run<'_>, st: Option<&mut Stats>) -> Result<(), (String,
             Step::WouldBlock => Some(ErrorKind::WouldBlock),
             Step::Other => Some(ErrorKind::Other),
             Step::Interrupted if matches!(run.api, Api::Write | Api::WriteVectored) => Some(ErrorKind::Interrupted),
-            Step::Accept(0) if !c.data.is_empty() && matches!(run.api, Api::WriteAll | Api::WriteFmt) => Some(ErrorKind::WriteZero),
+            Step::Accept(0) if !c.data.is_empty() && matches!(run.api, Api::WriteAll | Api::WriteFmt | Api::WriteFmtLiteral | Api::WriteFmtBig) => Some(ErrorKind::WriteZero),
             _ => None,
         });
         match r {
@@ -286,7 +327,7 @@ pub fn run_history(run: &Run<'_>, st: Option<&mut Stats>) -> Result<(), (String,
 
 fn case_of(run: &Run<'_>) -> Case {
     let mut c = Case::new("c18").b(run.input);
-    c = c.n(APIS.iter().position(|a| *a == run.api).unwrap() as i64).n(run.styles as i64).n(run.script.len() as i64);
+    c = c.n(ALL_APIS.iter().position(|a| *a == run.api).unwrap() as i64).n(run.styles as i64).n(run.script.len() as i64);
     for s in run.script {
         c = c.n(s.code());
     }
@@ -365,6 +406,73 @@ pub fn run(cfg: &Cfg) -> Stats {
             }
             idx += n;
         }
+        // literal formatted writes: every literal x every script
+        let total_l = ns * LITERALS.len() as u64;
+        let mut idx = shard;
+        while idx < total_l {
+            let input = LITERALS[(idx % LITERALS.len() as u64) as usize].as_bytes();
+            gen::enum_decode(idx / LITERALS.len() as u64, STEPS.len() as u64, &mut digits);
+            let script: Vec<Step> = digits.iter().map(|d| STEPS[*d]).collect();
+            let run = Run { input, cuts: &[], script: &script, api: Api::WriteFmtLiteral, styles: true };
+            eval(&run, &mut st, true);
+            idx += n;
+        }
+        // long runs: one text run of 2^k-2..2^k+2 bytes (plain, styled, multi-byte characters at every offset against
+        // the threshold), whole and in two chunks, every all-or-nothing API, without faults and with one short count
+        if cfg.tier != Tier::Tiny {
+            let mut k = 0u64;
+            for t in gen::THRESHOLDS.iter().filter(|t| **t >= 128 && **t <= 32768) {
+                for d in -2i64..=2 {
+                    for variant in 0..6u8 {
+                        k += 1;
+                        if k % n != shard {
+                            continue;
+                        }
+                        let len = (*t as i64 + d) as usize;
+                        let mut data: Vec<u8> = vec![];
+                        match variant {
+                            0 => data.extend(std::iter::repeat(b'm').take(len)),
+                            1 => {
+                                data.extend_from_slice(b"\x1b[31merror\x1b[0m: ");
+                                data.extend(std::iter::repeat(b'm').take(len));
+                                data.extend_from_slice(b" [7]\n");
+                            }
+                            2 | 3 | 4 => {
+                                // a multi-byte character straddling byte `len` of the run
+                                let ch = ["\u{e9}", "\u{6f22}", "\u{1f600}"][(variant - 2) as usize];
+                                data.extend(std::iter::repeat(b'a').take(len.saturating_sub(1)));
+                                for _ in 0..4 {
+                                    data.extend_from_slice(ch.as_bytes());
+                                }
+                                data.extend_from_slice(b"tail");
+                            }
+                            _ => {
+                                data.extend_from_slice(b"\x1b[1;32m");
+                                while data.len() < len {
+                                    data.extend_from_slice("\u{6f22}\u{e9}x".as_bytes());
+                                }
+                                data.extend_from_slice(b"\x1b[0m.");
+                            }
+                        }
+                        for api in [Api::WriteAll, Api::WriteFmt, Api::WriteFmtBig, Api::Write] {
+                            let run = Run { input: &data, cuts: &[], script: &[], api, styles: true };
+                            eval(&run, &mut st, true);
+                            if api != Api::Write {
+                                let script = [Step::All, Step::Accept(3), Step::All, Step::Accept(1)];
+                                let run = Run { input: &data, cuts: &[], script: &script, api, styles: true };
+                                eval(&run, &mut st, true);
+                            }
+                        }
+                        let cut = floor_boundary(std::str::from_utf8(&data).unwrap(), data.len() / 3);
+                        if cut > 0 {
+                            let cuts = [cut];
+                            let run = Run { input: &data, cuts: &cuts, script: &[], api: Api::WriteFmtBig, styles: true };
+                            eval(&run, &mut st, true);
+                        }
+                    }
+                }
+            }
+        }
         // grammar texts with chunkings (no faults, or random faults)
         let mut i = shard;
         while i < ntext {
@@ -372,9 +480,9 @@ pub fn run(cfg: &Cfg) -> Stats {
             let data = gen::gen_sgr_text(&mut rng, SgrOpts::default(), items, &[]);
             let chunker = *rng.pick(&[Chunker::Whole, Chunker::Single, Chunker::Random(7), Chunker::Random(50), Chunker::Fixed(4)]);
             let cuts = gen::chunk_cuts(&mut rng, data.len(), chunker);
-            let api = APIS[rng.below(4) as usize];
+            let api = if rng.chance(1, 6) { Api::WriteFmtBig } else { APIS[rng.below(4) as usize] };
             let cuts = match (api, std::str::from_utf8(&data)) {
-                (Api::WriteFmt, Ok(s)) => gen::cuts_to_char_boundaries(s, &cuts),
+                (Api::WriteFmt | Api::WriteFmtBig, Ok(s)) => gen::cuts_to_char_boundaries(s, &cuts),
                 _ => cuts,
             };
             let script: Vec<Step> = if rng.chance(1, 2) {
@@ -420,14 +528,14 @@ pub fn run(cfg: &Cfg) -> Stats {
         }
         st
     });
-    st.exhaustive_parts.push(format!("all console scripts of length <= {depth} over 8 step kinds x {} short inputs x 4 write APIs x (whole | one rotating cut)", SHORT_INPUTS.len()));
+    st.exhaustive_parts.push(format!("all console scripts of length <= {depth} over 8 step kinds x {} short inputs x 4 write APIs x (whole | one rotating cut); the same scripts x {} literal formatted writes; text runs of 2^k-2..2^k+2 bytes up to 32768 x 6 shapes x 4 APIs", SHORT_INPUTS.len(), LITERALS.len()));
     st
 }
 
 pub fn replay(case: &Case) -> Result<String, Viol> {
     let input = case.bytes.first().cloned().unwrap_or_default();
     let nums = &case.nums;
-    let api = APIS[nums.first().copied().unwrap_or(1) as usize % 4];
+    let api = ALL_APIS[nums.first().copied().unwrap_or(1) as usize % 6];
     let styles = nums.get(1).copied().unwrap_or(1) != 0;
     let sl = nums.get(2).copied().unwrap_or(0) as usize;
     let script: Vec<Step> = nums.iter().skip(3).take(sl).map(|c| STEPS[*c as usize % 8]).collect();
